@@ -527,7 +527,11 @@ func keepRun(r *vh.Run, idx int) {
 // verdict; the watchdogs only decide "no verdict", never a violation.
 func blockRun(r *vh.Run, idx int) {
 	rng := r.Rand(3_000_000 + idx)
-	mode := idx % 4
+	mode := idx % 5
+	if mode == 4 {
+		expiryCleanupParked(r, idx, rng)
+		return
+	}
 	const target = int64(1000)
 	gate := make(chan struct{})
 	started := make(chan struct{}, 64)
@@ -721,13 +725,87 @@ collect:
 	_ = ca.DeleteAll()
 }
 
+// expiryCleanupParked (mode 4): the timer expiry has decided to remove an idle entry and its cleanup is running
+// (parked on a gate).  An implementation may make observers wait until the removal is complete - then nothing is
+// decided.  But a Get that *returns the entry* while its cleanup is in progress has used it: the entry must then
+// not be gone right afterwards (it was used less than Age ago).
+func expiryCleanupParked(r *vh.Run, idx int, rng *rand.Rand) {
+	const target = int64(2000)
+	age := []time.Duration{15 * time.Millisecond, 30 * time.Millisecond}[rng.Intn(2)]
+	gate := make(chan struct{})
+	started := make(chan struct{}, 8)
+	o := cache.Opts[int, int64]{Age: age, PruneFn: func(k int, v int64) error {
+		if v == target {
+			select {
+			case started <- struct{}{}:
+			default:
+			}
+			<-gate
+		}
+		return nil
+	}}
+	if rng.Intn(2) == 0 {
+		o.PrunePreFn = func(int, int64) {}
+		o.PrunePostFn = func(int, int64) {}
+	}
+	ca := cache.New[int, int64](o)
+	ca.Set(0, target)
+	wit := map[string]any{"batch": idx, "mode": 4, "age": age.String(), "hooks": o.PrunePreFn != nil}
+	select {
+	case <-started:
+	case <-time.After(10 * time.Second):
+		r.Count("block_not_reached", 1)
+		close(gate)
+		return
+	}
+	r.Count("runs_block", 1)
+	type res struct {
+		v   int64
+		err error
+		t   time.Time
+	}
+	got := make(chan res, 1)
+	go func() {
+		v, err := ca.Get(0)
+		got <- res{v, err, time.Now()}
+	}()
+	var use *res
+	select {
+	case g := <-got:
+		r.Count("block_observations_before_release", 1)
+		if g.err == nil && g.v == target {
+			use = &g
+		}
+	case <-time.After(200 * time.Millisecond):
+		r.Count("block_observations_overlapping_release", 1)
+	}
+	close(gate)
+	if use == nil {
+		if len(got) == 0 {
+			<-got
+		}
+		r.Distinct("configs", fmt.Sprintf("block/4/%v/observer-waited", age))
+		return
+	}
+	// the entry was handed out while its cleanup ran; look again at once
+	time.Sleep(time.Millisecond)
+	_, err := ca.Get(0)
+	since := time.Since(use.t)
+	if err != nil && since < age {
+		r.Violation("cache:entry expired before its age", fmt.Sprintf("Get returned the entry while the expiry pass was running its cleanup; %v later (age %v) the entry is gone", since, age), wit)
+	}
+	r.Count("expiry_checked", 1)
+	r.Distinct("configs", fmt.Sprintf("block/4/%v/observer-served", age))
+	_ = ca.DeleteAll()
+}
+
 func main() {
 	r := vh.Start()
 	_ = rand.Int
 	nc := r.N(320, 6000)
 	nl := r.N(120, 2500)
 	nk := r.N(48, 800)
-	nb := r.N(96, 2000)
+	nb := r.N(120, 2500)
 	vh.Parallel(nc+nl+nk+nb, 12, func(i int) {
 		switch {
 		case i < nc:
@@ -741,8 +819,8 @@ func main() {
 		}
 	})
 	r.Count("runs", nc+nl+nk+nb)
-	r.Require("block_observations_before_release", int64(nb/2))
+	r.Require("block_observations_before_release", int64(nb*2/5))
 	r.Require("cleanups_logged", 200)
 	r.Require("lru_comparisons", 50)
-	r.Finish("three workload families on the real cache.Cache with harness-owned callbacks: (1) concurrent Set/Get/Delete/DeleteAll by 1-4 workers on 6 keys (shared or owned), Age in {0,15,40ms}, Count in {0,1,2,3,10}, failing and slow cleanups, optional pre/post hooks; (2) sequential LRU scenarios with logical clocks; (3) keep-alive / failing-cleanup expiry scenarios; (4) parked callbacks: Delete/DeleteAll with the cleanup parked on a gate (observers must still see the entry, outcome follows the cleanup result) and timer expiry with the pre hook parked while the entry is used or replaced. A case is one run; distinct = distinct configurations (age/count/failRate/workers/hooks/sharing)", "runs", "configs")
+	r.Finish("three workload families on the real cache.Cache with harness-owned callbacks: (1) concurrent Set/Get/Delete/DeleteAll by 1-4 workers on 6 keys (shared or owned), Age in {0,15,40ms}, Count in {0,1,2,3,10}, failing and slow cleanups, optional pre/post hooks; (2) sequential LRU scenarios with logical clocks; (3) keep-alive / failing-cleanup expiry scenarios; (4) parked callbacks: Delete/DeleteAll with the cleanup parked on a gate (observers must still see the entry, outcome follows the cleanup result) timer expiry with the pre hook parked while the entry is used or replaced, and timer expiry with the cleanup itself parked while an observer asks for the entry. A case is one run; distinct = distinct configurations (age/count/failRate/workers/hooks/sharing)", "runs", "configs")
 }
